@@ -236,6 +236,18 @@ impl Nd {
         v
     }
 
+    /// A `u32` in `lo..=hi`. (Native smoke mode maps its draw into the range instead of rejecting.)
+    pub fn u32_in(&mut self, lo: u32, hi: u32) -> u32 {
+        #[cfg(not(kani))]
+        if self.rng.is_some() {
+            let span = (hi - lo) as u64 + 1;
+            return lo + (self.raw() % span) as u32;
+        }
+        let v = self.u32();
+        self.assume(v >= lo && v <= hi);
+        v
+    }
+
     /// An ASCII letter or digit.
     pub fn alnum(&mut self) -> u8 {
         #[cfg(not(kani))]
